@@ -157,10 +157,17 @@ type fcfg struct {
 	FileName string
 	SubDir   bool // sink directory does not exist yet
 	Format   string
+	// PreMode: an empty file with the plain configured name and this mode is there before the sink's first write
+	// (left by an earlier run, created by an installer); 0 = none. Only where the active file has the plain name.
+	PreMode os.FileMode
 }
 
 func (c fcfg) String() string {
-	return fmt.Sprintf("MaxBytes=%d MaxFiles=%d MaxDuration=%dms TimestampOnlyOnRotate=%v Mode=%o FileName=%s newdir=%v format=%q", c.MaxBytes, c.MaxFiles, c.MaxDurMS, c.TSOnly, c.Mode, c.FileName, c.SubDir, c.Format)
+	pre := ""
+	if c.PreMode != 0 {
+		pre = fmt.Sprintf(" active-file-exists-with-mode=%o", c.PreMode)
+	}
+	return fmt.Sprintf("MaxBytes=%d MaxFiles=%d MaxDuration=%dms TimestampOnlyOnRotate=%v Mode=%o FileName=%s newdir=%v format=%q%s", c.MaxBytes, c.MaxFiles, c.MaxDurMS, c.TSOnly, c.Mode, c.FileName, c.SubDir, c.Format, pre)
 }
 
 type fop struct {
@@ -197,6 +204,7 @@ type fstep struct {
 	LastCreated  time.Time
 	Renamed      string // rename step: new (external) name of what was the active file
 	RenamedIno   uint64
+	Touched      string // touch step: the rotated file whose modification time was changed from outside
 	Note         string // unformatted step: what the rejected event changed ("" = nothing)
 }
 
@@ -301,6 +309,11 @@ func newRun(parent string, cfg fcfg) *frun {
 			}
 		}
 		os.Mkdir(filepath.Join(dir, "subdir-"+cfg.FileName), 0o755)
+		if cfg.PreMode != 0 {
+			pf := filepath.Join(dir, cfg.FileName)
+			os.WriteFile(pf, nil, cfg.PreMode)
+			os.Chmod(pf, cfg.PreMode)
+		}
 	}
 	r := &frun{Cfg: cfg, Dir: dir}
 	r.Sink = &eventlogger.FileSink{Path: dir, FileName: cfg.FileName, Mode: cfg.Mode, MaxBytes: cfg.MaxBytes, MaxFiles: cfg.MaxFiles,
@@ -407,6 +420,29 @@ func (r *frun) exec(op fop, rng *rt.Rand) {
 			st.Err = os.Rename(filepath.Join(r.Dir, a), filepath.Join(r.Dir, st.Renamed))
 		}
 		st.T1 = time.Now()
+	case "touch":
+		// something outside the sink touches one of its rotated files (a backup tool, an editor, a restore): the
+		// file's modification time no longer tells its place in the sequence, its name still does
+		st.T0 = time.Now()
+		cur := snapshot(r.Dir)
+		act := r.activeName(cur)
+		var rot []string
+		for n := range cur {
+			if ts, ns := r.Cfg.inNamespace(n); ns && ts > 0 && n != act {
+				rot = append(rot, n)
+			}
+		}
+		sort.Strings(rot)
+		if len(rot) > 0 {
+			n := rot[rng.Intn(len(rot))]
+			when := time.Now().Add(time.Hour)
+			if rng.Bool() {
+				when = time.Date(2001, 1, 1, 0, 0, 0, 0, time.UTC)
+			}
+			st.Err = os.Chtimes(filepath.Join(r.Dir, n), when, when)
+			st.Touched = n
+		}
+		st.T1 = time.Now()
 	case "pause":
 		st.T0 = time.Now()
 		time.Sleep(time.Duration(r.Cfg.MaxDurMS+6) * time.Millisecond)
@@ -435,6 +471,9 @@ func genCfg(r *rt.Rand) fcfg {
 		FileName: rt.Pick(r, []string{"audit.log", "audit.log", "audit", "ev.json", "catalog.log", "session.json", "a.b.log"}),
 		SubDir:   r.Intn(6) == 0,
 		Format:   rt.Pick(r, []string{"", "", "cloudevents-json"}),
+	}
+	if plain := c.TSOnly || !(c.MaxBytes > 0 || c.MaxDurMS != 0); plain && !c.SubDir && r.Intn(4) == 0 {
+		c.PreMode = rt.Pick(r, []os.FileMode{0o666, 0o664, 0o644, 0o640, 0o600, 0o606})
 	}
 	return c
 }
@@ -467,8 +506,10 @@ func genOps(r *rt.Rand, c fcfg, n int) []fop {
 				// the next event has the very same bytes (a heartbeat, a payload without a sequence number)
 				ops = append(ops, fop{Kind: "write", Len: l, Again: true})
 			}
-		case x < 82:
+		case x < 80:
 			ops = append(ops, fop{Kind: "reopen"})
+		case x < 82:
+			ops = append(ops, fop{Kind: "touch"})
 		case x < 92:
 			ops = append(ops, fop{Kind: "rename"})
 			switch r.Intn(6) {
